@@ -123,14 +123,15 @@ CHECKS = {
              "break) and TagsUntouched for every string up to the bound. Every string is concretised and run through the real "
              "smart_quotes; spec/TypoTrace.tla validates each real pair against the machine (drift) and the property. Document level: "
              "(smartquotes off, on) pairs of reformat_text outputs for 35 quote-bearing / construct-rich documents under the other option "
-             "settings: same length, same line breaks, every differing position is a straight quote turned curly outside protected spans.",
+             "settings: same length, same line breaks, every differing position is a straight quote turned curly outside protected spans, and a converted "
+             "opening quote and the next converted closing quote of its family lie in the same scope (paragraph, heading, list item, table cell).",
         note="Trusted: the protected-span scanner of harness/typo.py on generated documents; symbol classes represented by rotating concrete "
              "characters. The regex engine is bound by exhaustive replay, not modelled.",
         technique="TLA+ model checking (TLC) of the Quotes machine + exhaustive string replay + on/off differential trace validation (TypoTrace.tla)",
         design="§6 C08, §12"),
     "C09": dict(
         level="model_checking",
-        text="spec/Typography.tla transcribes ellipses() as a machine over a 7-symbol alphabet (ELLIPSIS_PATTERN: line start or word/quote "
+        text="spec/Typography.tla transcribes ellipses() as a machine over a 7-symbol alphabet (ELLIPSIS_PATTERN: start of the text or word/quote "
              "prefix, optional spaces, three dots, optional punctuation, trailing spaces, boundary test, inserted spaces); TLC checks "
              "EllipsisProp (undoing the rewrite gives the same text for input and output), OnlyThreeDotRuns and idempotence for every "
              "string up to the bound. Every string is run through the real ellipses(); spec/TypoTrace.tla validates each real pair against "
@@ -190,9 +191,11 @@ CHECKS = {
              "10^6 x 32 switch combinations x 3 list spacings, plaintext) under a CPU-time watchdog. spec/PipeTrace.tla decides per call: it "
              "returned (no raise / timeout), the recorded stage functions equal the machine's stage sequence, and the result is a str ending "
              "in a newline (Markdown mode) without control or placeholder bytes absent from the input and without added trailing spaces on "
-             "blank code lines. Pumped families (delimiter runs, long paragraphs / lists / tables / link and tag runs) are timed at n, 2n, 4n.",
+             "blank code lines. Pumped families (delimiter runs, long paragraphs / lists / tables / link and tag runs) are timed at n, 2n, 4n, and every "
+             "family plus long whitespace runs in code / as trailing spaces / wide table cells at ~30 KB must stay within a fixed CPU budget (StaysModest).",
         note="Exploration level: inputs are enumerated/sampled, not a closed model. The growth clause is a CPU-time measurement with a "
-             "doubling-ratio test (x6 above a 0.25 s floor) -- TLA+ says nothing about performance; it is the weakest clause.",
+             "doubling-ratio test (x6 above a 0.25 s floor) and an absolute budget 7x above the slowest family of the unchanged tree -- TLA+ says nothing "
+             "about performance; it is the weakest clause. Finding D70 (marko quadratic on a 24 000-space run in a paragraph line) is excused on its exact witness.",
         technique="TLA+ call-protocol spec (TLC: termination, stage order) + spec-guided input exploration + trace validation (PipeTrace.tla)",
         design="§6 C12, §7, §12"),
     "C13": dict(
@@ -203,19 +206,21 @@ CHECKS = {
              "deterministic scheduler (one runnable thread, switches only at call events of flowmark/marko code) for pairs/triples of "
              "leak-sensitive (document, options) calls, plus seeded fine-grained schedules and single-process histories (ordered "
              "pairs/triples of calls); spec/IsoTrace.tla validates that the executed schedule is a behaviour of the model and that every "
-             "result equals the result of the same call in a freshly spawned interpreter.",
+             "result equals the result of the same call in a freshly spawned interpreter. Documents whose last block leaves a renderer flag set / whose "
+             "first block is sensitive to one are run as every ordered same-option pair in every tier.",
         note="Trusted: the scheduler (switch points = Python call events of flowmark/marko files; no preemption inside C code), "
              "spawned-interpreter solo oracle. Schedules are bounded (<= 3 preemptions at segment granularity) plus random fine-grained ones.",
         technique="TLA+ model checking (TLC) of Isolation.tla + schedule replay under a deterministic scheduler + trace validation (IsoTrace.tla)",
         design="§6 C13"),
     "C15": dict(
         level="model_checking",
-        text="The option space {width 0/40/88} x plaintext x semantic x cleanups x smartquotes x ellipses x list-spacing x 15 entry points "
-             "(CLI file/stdin to stdout/-o/in place, --auto, several files, reformat_file, reformat_files, reformat_text, three usage "
-             "errors) is finite; TLC explores spec/EntryPoints.tla completely (option record threaded argv -> Options -> reformat_files "
+        text="The option space {width 0/40/88} x plaintext x semantic x cleanups x smartquotes x ellipses x list-spacing x 18 entry points "
+             "(CLI file/stdin to stdout/-o/in place, --auto, several files, reformat_file, reformat_files, reformat_text, six usage "
+             "errors: no input, -o with several files / with a directory / with a glob that yield two files, --inplace with stdin alone / next to a file) is finite; TLC explores spec/EntryPoints.tla completely (option record threaded argv -> Options -> reformat_files "
              "-> reformat_file -> reformat_text -> sink; SinkCorrect; three re-wiring mutants of the model are rejected). Every point is "
              "executed on the real code on a probe document that separates all option points (checked), and spec/EntryTrace.tla "
-             "validates each observation: bytes equal reformat_text(probe, **Expected), exit code, nothing else written, per-file results.",
+             "validates each observation: bytes equal reformat_text(probe, **Expected), exit code, nothing else written, per-file results. Byte-level "
+             "family: already formatted files stored with CRLF / LF / a leading UTF-8 BOM through the in-place, stdout and stdin entry points.",
         note="Trusted: in-process cli.main with redirected stdio (a seeded subset is re-run as real subprocesses); the reference is the "
              "text API of the same tree (agreement, not absolute correctness).",
         technique="TLA+ model checking (TLC) of a complete finite product + execution of every point + trace validation (EntryTrace.tla)",
@@ -236,21 +241,22 @@ CHECKS = {
         design="§6 C16"),
     "C18": dict(
         level="model_checking",
-        text="spec/Gitignore.tla gives git's ignore semantics over a small universe (7 files at depth <= 3, 17 patterns: basename, anchored, "
-             "multi-segment, dir-only, *, **, ?, negation; .gitignore at the root and in d/; last match wins per file, deepest file with an "
+        text="spec/Gitignore.tla gives git's ignore semantics over a small universe (7 files at depth <= 3, 29 patterns: basename, anchored, "
+             "multi-segment, dir-only, *, **, ?, negation of files / directories / everything (!e/, !e, !*, !*/), one-level star (*/a.md), **/e/; .gitignore at the root and in d/; last match wins per file, deepest file with an "
              "opinion wins, no re-inclusion below an excluded directory). TLC enumerates the configurations and checks chain-semantics "
              "invariants; each configuration is materialised in a scratch git repository and three listings are observed: git itself, "
              "flowmark with gitignore, flowmark with --no-respect-gitignore. spec/GitTrace.tla decides flowmark = git (verdict, both real) "
              "and that the off-switch lists everything; model = git is tracked as drift.",
-        note="Oracle: the git binary on PATH. All 324 one-line configurations exhaustively; two-line configurations sampled by VERIF_SEED "
-             "(700 quick / 12 000 thorough of 94 249). Patterns outside the 17 are not covered.",
+        note="Oracle: the git binary on PATH. All 900 one-line configurations exhaustively; two-line configurations sampled by VERIF_SEED "
+             "(700 quick / 12 000 thorough), every (p, q, p) sandwich, seeded three-line ones; overlapping walk roots. Patterns outside the 29 are not covered "
+             "(three pathspec-level divergences outside the universe are listed in DESIGN 12.3).",
         technique="TLA+ model of gitignore semantics (TLC) + differential replay against git + trace validation (GitTrace.tla)",
         design="§6 C18"),
     "C17": dict(
         level="model_checking",
         text="spec/Resolve.tla models FileResolver.resolve as a machine (ArgFile / ArgDir / ArgGlob with seen/result, then Sort) over a "
-             "13-entry universe (sizes at and over the limit, default- and user-excluded directories, a .flowmarkignore rule, symlinks to a "
-             "file inside / outside / dangling / to a directory) x 96 settings (incl. a path-anchored exclude whose verdict depends on the walk root) x every argument list up to the bound, and states the "
+             "18-entry universe (sizes at and over the limit, default- and user-excluded directories, a .flowmarkignore rule, a second project directory "
+             "with its own .flowmarkignore, a directory named like an included file, symlinks to a file inside / outside / dangling / oversized / to a directory) x 96 settings (incl. a path-anchored exclude whose verdict depends on the walk root) x every argument list up to the bound, and states the "
              "property declaratively as Must <= result <= Must u May; TLC checks Complete, SoundK (open findings carved out by trigger) and "
              "OrderFree on every state. Every point is materialised on disk; FileResolver.resolve, the reversed argument list, a permuted "
              "directory listing order and (a subset) `flowmark --list-files` are observed, and spec/ResolveTrace.tla decides soundness, "
